@@ -218,6 +218,39 @@ def r_random_zero(ctx, rule='R-RANDOM-ZERO'):
                   '`%s` is not "every element of the vector is zero" (%s): a non-zero normal could be treated as a random split' % (p, why))
 
 
+def r_routed_by_side(ctx, rule='R-PARTITION'):
+    """in the tree constructor every item is put on the side `D::side` (or, below a zeroed normal, `Side::random`) chose for
+    it: a push into one of the two child lists that is not under a side decision bypasses the plane"""
+    F = ctx.F
+    n = 0
+    for f in F.lib_fns():
+        if not f.path.startswith('writer::') or not any(c.callee.endswith('Distance::create_split') for c in f.calls()):
+            continue
+        for c in f.calls():
+            if not (c.callee.endswith(('Vec::<T, A>::push', 'RoaringBitmap>::push', 'RoaringBitmap>::insert')) and len(c.args) == 2):
+                continue
+            a0 = c.args[0]
+            ty = f.local_ty(a0['place']['l']) if a0.get('k') in ('copy', 'move') else ''
+            if 'Vec<u32>' not in ty and 'RoaringBitmap' not in ty:
+                continue
+            if root(c.arg_term(0))[0] == 'arg':
+                continue          # out-parameters (work lists), not the two child lists
+            n += 1
+            decided = False
+            for s0, x0, e in paths.controlling_conds(f, c.bb):
+                if e[0] == 'disc' and paths.edge_dominates(f, s0, x0, c.bb) and any(
+                        y[0] == 'call' and y[1].endswith(('Distance::side', 'Side::random')) for y in walk(e[1])):
+                    decided = True
+            ctx.check(decided, rule, '%s/child-list-push#%d' % (f.path, n), c.loc(), 'the item is put on the side chosen by D::side / Side::random',
+                      'in `%s` an item is put into a child list without a side decision (D::side or, for a zeroed normal, Side::random): it can land on the wrong side of a real plane, and a search for its own vector is routed away from it' % f.path)
+    if n:
+        ctx.floor(rule, 'pushes into the child lists of the tree constructor', n, 2)
+    else:
+        # the child lists are filled by a helper type (e.g. `sides.push(D::side(..), id)`): nothing to decide at this level;
+        # the pairing of the lists with the children is R-LINK's business
+        ctx.ok(rule, 'child-list-pushes', '', 'no direct pushes into child lists in the tree constructor (filled through a helper)', nontrivial=False)
+
+
 LOSSLESS_ITER = ('::iter', 'IntoIterator::into_iter', 'Iterator::copied', 'Iterator::cloned', 'Iterator::by_ref', 'Deref::deref', '::as_ref',
                  '::as_slice', '::as_bytes', 'Iterator::rev', 'Iterator::enumerate', 'Iterator::map', 'bytemuck::cast_slice')
 
